@@ -126,22 +126,6 @@ def _gcols(g, cols):
     return [[[row[j] for j in cols] for row in ph] for ph in g]
 
 
-def _gs_sweeps(A, b, atol, maxiter=1000):
-    """transcription of gauss_seidel that also reports the number of sweeps (signature only)"""
-    n = len(b)
-    xp = numpy.zeros(n)
-    xc = numpy.zeros(n)
-    it = 0
-    ad = 2 * atol
-    while numpy.any(ad > atol) and it < maxiter:
-        xp[:] = xc
-        for i in range(n):
-            xc[i] = (b[i] - A[i, :i].dot(xc[:i]) - A[i, i + 1:].dot(xc[i + 1:])) / A[i, i]
-        ad = numpy.abs(xc - xp)
-        it += 1
-    return xc, it, bool(numpy.any(ad > atol))
-
-
 class C04(Prop):
     PID = "C04"
     MODULE = "PybropsModel.Props.C04"
@@ -180,6 +164,11 @@ class C04(Prop):
         "DenseBreedingValueMatrix.from_numpy / unscale (values are observed through unscale(); their round trip is C15)",
         "numpy matmul / sum / var / where as modelled in Model/GenomicModel.lean",
         "pandas round trip of to_pandas_dict / from_pandas_dict only through the coefficients the loaded model reports",
+        "numpy.linalg.solve in the repaired rrBLUP_ML0 (direct-solve fallback): entered through its contract A x = b for "
+        "the symmetric positive definite A = Z'Z + ridge I; the model runs with an exact Gauss-Jordan solver "
+        "(exact_solver_meets_contract) and the contract is re-checked on the implementation's own solution on every "
+        "ml0 case that takes the fallback (residual <= 1e-9 (|A|_inf |u|_inf + |b|_inf)) and, through the "
+        "normal-equation clause of the Spec, on every fit / refit case",
     ]
     ASSUMPTIONS = [
         "effects, intercepts, covariates and responses are integers or dyadic rationals: float results are compared "
@@ -188,7 +177,8 @@ class C04(Prop):
         "a raw numpy dosage array handed to the dominance model is diploid {0,1,2} (documented in predict(); the "
         "ndarray branch has no ploidy argument and uses D = (gtobj == 1))",
         "score: responses are not constant per trait (SST != 0)",
-        "normal-equation clause: residual <= max(1e-6 * max(1, |Z'y_c|_inf), 2 * gsatol * max_i sum_{j != i} |A_ij|)",
+        "normal-equation clause: residual <= max(1e-6 * max(1, |Z'y_c|_inf), 2 * gsatol * max_i sum_j |A_ij|) "
+        "(second term = the bound the repaired code tests itself)",
     ]
 
     # ------------------------------------------------------------------ generation helpers
@@ -414,8 +404,8 @@ class C04(Prop):
         Z, Y = self._train(rng, n, p, 1, allpoly=True)
         c = {"kind": "ml0", "Z": Z, "y": canon.enc([r[0] for r in Y]), "maxiter": rng.choice([1, 2, 3, 4])}
         r = rng.random()
-        if r < 0.12:        # the rarely used solver options: tolerance 0 ("iterate as far as possible"), default sweeps
-            c.update({"gsatol": 0, "maxiter": 1000})
+        if r < 0.12:        # the rarely used solver options: tolerance 0 ("iterate as far as possible"); few sweeps keep the
+            c["gsatol"] = 0  # exact rational model cheap (the 1000-sweep instance is in the corpus)
         elif r < 0.2:
             c["gsatol"] = canon.enc(rng.choice([Fraction(1, 4), Fraction(1, 1024)]))
         return c
@@ -645,8 +635,9 @@ class C04(Prop):
 
     @staticmethod
     def _finding_cases():
-        """n > p training sets on which gauss_seidel stops at maxiter = 1000 far from the solution (D22);
-        gsatol = 0: the first loop test `2*atol > atol` is false, no sweep is performed, all effects are 0 (D22b)"""
+        """regression cases of the repaired defects: n > p training sets on which gauss_seidel stops at maxiter = 1000
+        far from the solution (D22: now the direct solution is returned); gsatol = 0 (D22b: the first loop test used to
+        be false, no sweep was performed, all effects were 0)"""
         return [
             {"kind": "ml0", "Z": [[0, 1], [1, 1], [2, 0], [1, 2], [0, 0], [2, 2]], "y": [1, 2, 4, 3, 0, 5],
              "maxiter": 1000, "gsatol": 0},
@@ -1316,7 +1307,7 @@ class C04(Prop):
             reqs.append({"op": "c04.fitwrap", "Y": Y, "Z": Z, "p": p, "t": t, "sols": o["sols"]})
             reqs.append({"op": "c04.spec_fit", "Y": Y, "Z": Z, "p": p, "t": t, "ridges": o["ridges"],
                          "atol": canon.enc(Fraction(ATOL)), "reltol": canon.enc(RELTOL), "beta": o["beta"],
-                         "u_a": o["u_a"], "check_normal_eq": False})
+                         "u_a": o["u_a"], "check_normal_eq": True})
         # the prediction path of the fitted objects: GEBV = fitted intercept + Z · fitted effects
         for Zk, ok, views in (("Z1", "first", ("gebv1_before", "gebv1_after")),
                               ("Z2", "second", ("gebv2", "predict2", "gebv2_after_setters"))):
@@ -1442,13 +1433,13 @@ class C04(Prop):
         if k == "ml0":
             p = len(case["Z"][0])
             atol = case.get("gsatol", canon.enc(Fraction(ATOL)))
-            # the normal-equation clause is only meaningful when the sweep limit is the default one
+            # repaired code: the normal-equation clause holds for EVERY sweep limit (direct-solve fallback)
             return [{"op": "c04.ml0", "y": case["y"], "Z": case["Z"], "p": p, "ridge": obs["ridge"],
-                     "atol": atol, "maxiter": case["maxiter"]},
+                     "atol": atol, "maxiter": case["maxiter"], "impl_u": obs["uhat"]},
                     {"op": "c04.spec_fit", "Y": [[v] for v in case["y"]], "Z": case["Z"], "p": p, "t": 1,
                      "ridges": [obs["ridge"]], "atol": atol, "reltol": canon.enc(RELTOL),
                      "beta": [obs["betahat"]], "u_a": [[u] for u in obs["uhat"]],
-                     "check_normal_eq": case["maxiter"] >= 1000}]
+                     "check_normal_eq": True}]
         if k == "fit":
             p = len(case["Z"][0])
             t = len(case["Y"][0])
@@ -1628,9 +1619,15 @@ class C04(Prop):
                     "detail": f"gs sweeps={mod['sweeps']} impl={obs['x']} model={mod['x']} spec=[{s['detail']}]"}
         if k == "ml0":
             mod, s = A
-            corr = self._cl(obs["betahat"], [mod["betahat"]]) and self._cl(obs["uhat"], mod["uhat"])
+            # Gauss-Seidel branch: functional (iterate = model's); direct-solve branch: relational — the
+            # implementation's solution must meet the contract of numpy.linalg.solve on this system (re-checked in
+            # Lean: `contract_ok`), it need not agree with the exact solution digit by digit when A is ill-conditioned
+            same = self._cl(obs["uhat"], mod["uhat"])
+            corr = self._cl(obs["betahat"], [mod["betahat"]]) and (same or (mod["fallback"] and mod["contract_ok"]))
             return {"corr": corr, "spec": bool(s["ok"]), "nontrivial": len(case["Z"][0]) >= 2, "clauses": s.get("clauses"),
-                    "detail": f"ml0 gsatol={case.get('gsatol')} ridge={obs['ridge']} impl_u={obs['uhat']} model_u={mod['uhat']} spec=[{s['detail']}]"}
+                    "detail": f"ml0 gsatol={case.get('gsatol')} maxiter={case['maxiter']} fallback={mod['fallback']} "
+                              f"contract_ok={mod['contract_ok']} ridge={obs['ridge']} impl_u={obs['uhat']} "
+                              f"model_u={[str(x)[:40] for x in mod['uhat']]} spec=[{s['detail']}]"}
         if k == "fit":
             mod, s = A
             corr = (self._cl(obs["beta"], mod["beta"]) and canon.close_enc(obs["u_a"], mod["u_a"], rel=0, abs_=0)
@@ -1643,37 +1640,8 @@ class C04(Prop):
 
     # ------------------------------------------------------------------ findings / shrinking
     def signature(self, case, obs, verdict):
-        sig = {"kind": case["kind"]}
-        if case["kind"] == "ml0" and isinstance(obs, dict) and "uhat" in obs:
-            cl = verdict.get("clauses") or {}
-            sig["failed"] = ",".join(sorted(k for k, v in cl.items() if v is False and k != "well_determined"))
-            sig["site"] = "gauss_seidel"
-            try:
-                sig["cond"] = "atol_zero" if Fraction(canon.dec(case.get("gsatol", 1))) == 0 else "atol_positive"
-            except Exception:
-                sig["cond"] = "unknown"
-        if case["kind"] == "fit" and isinstance(obs, dict) and "ridges" in obs:
-            cl = verdict.get("clauses") or {}
-            failed = sorted(k for k, v in cl.items() if v is False and k != "well_determined")
-            sig["failed"] = ",".join(failed)
-            sig["site"] = "gauss_seidel"
-            # did the Gauss-Seidel loop of any trait run out of sweeps?
-            try:
-                Z = numpy.array(case["Z"], dtype=float)
-                poly = ~numpy.all(Z == Z[0, :], axis=0)
-                Zp = Z[:, poly]
-                Y = _farr(case["Y"], len(case["Y"][0]))
-                hit = False
-                for kx, r in enumerate(obs["ridges"]):
-                    y = Y[:, kx] - Y[:, kx].mean()
-                    Am = Zp.T @ Zp
-                    Am[numpy.diag_indices_from(Am)] += _f(r)
-                    _, it, still = _gs_sweeps(Am, Zp.T @ y, ATOL)
-                    hit = hit or (it >= 1000 and still)
-                sig["cond"] = "maxiter_reached" if hit else "converged"
-            except Exception:
-                sig["cond"] = "unknown"
-        return sig
+        # no known finding is left for C04 (D22 / D22b repaired): the kind is all a matcher could need
+        return {"kind": case["kind"]}
 
     def shrink(self, case):
         for c in self._shrink0(case):
@@ -1873,7 +1841,8 @@ class C04(Prop):
                 if n > 2:
                     keep = [x for x in range(n) if x != i]
                     Z2 = [Z[x] for x in keep]
-                    if any(any(r[j] != Z2[0][j] for r in Z2) for j in range(p)):
+                    polyfn = all if k == "ml0" else any      # rrBLUP_ML0 itself needs every column polymorphic
+                    if polyfn(any(r[j] != Z2[0][j] for r in Z2) for j in range(p)):
                         c = dict(case)
                         c["Z"] = Z2
                         c[ykey] = [case[ykey][x] for x in keep]
@@ -2308,6 +2277,40 @@ class C04(Prop):
             u_a[poly, :] = numpy.stack([mm["uhat"] for mm in models], axis=1)[blk, :]
             return cls(beta=beta, u_misc=None, u_a=u_a)
 
+        def gs_first_test_two_atol(A, b, atol=1e-08, maxiter=1000):
+            """undoes the D22b repair: adiff = 2*atol before the loop (no sweep for atol = 0)"""
+            n = len(b)
+            xp = numpy.zeros(n)
+            xc = numpy.zeros(n)
+            it = 0
+            ad = 2 * atol
+            while numpy.any(ad > atol) and it < maxiter:
+                xp[:] = xc
+                for i in range(n):
+                    xc[i] = (b[i] - A[i, :i].dot(xc[:i]) - A[i, i + 1:].dot(xc[i + 1:])) / A[i, i]
+                ad = numpy.abs(xc - xp)
+                it += 1
+            return xc
+
+        def ml0_without_direct_solve(*a, **k):
+            """undoes the D22 repair: the Gauss-Seidel iterate is returned as it is, whatever its residual"""
+            seen = []
+            gs = m.rr.gauss_seidel
+
+            def rec(*aa, **kk):
+                out = gs(*aa, **kk)
+                seen.append(out.copy())
+                return out
+            m.rr.gauss_seidel = rec
+            try:
+                out = real_ml0(*a, **k)
+            finally:
+                m.rr.gauss_seidel = gs
+            if seen:
+                out["uhat"] = seen[-1]
+                out["yhat"] = out["X"].dot(out["betahat"]) + out["Z"].dot(seen[-1])
+            return out
+
         @contextlib.contextmanager
         def clean(ctx):
             memo.clear()
@@ -2373,6 +2376,9 @@ class C04(Prop):
             ("rrblup_class_gebv_drops_location", lambda: patch(m.RR, "gebv", gebv_no_location)),
             ("rrblup_intercept_mean_in_float32", lambda: patch(m.rr, "rrBLUP_ML0", ml0_intercept_float32)),
             ("rrblup_ztz_in_int8", lambda: patch(m.rr, "rrBLUP_ML0_calc_ZtZplI", ztz_int8)),
+            # the two repairs undone (D22b, D22)
+            ("gs_first_test_uses_two_atol", lambda: patch(m.rr, "gauss_seidel", gs_first_test_two_atol)),
+            ("rrblup_no_direct_solve_fallback", lambda: patch(m.rr, "rrBLUP_ML0", ml0_without_direct_solve)),
             ("gegv_numpy_skips_dominance_when_effects_cancel", lambda: patch(m.DOM, "gegv_numpy", gegv_numpy_additive_fast_path)),
             ("var_a_ploidy_not_forwarded", lambda: patch(m.ADD, "var_a", var_a_ploidy_not_forwarded)),
             ("rrblup_identical_columns_collapsed", lambda: patch(m.RR, "fit_numpy", classmethod(fit_collapses_identical_columns))),
